@@ -67,7 +67,7 @@ def r11a(ctx, P):
                   "rejects on inequality; success returns of the field-sort path (those not under the score fast-path flag) are also "
                   "dominated by a plan_hash == SortPlan::hash() test and a version test; PaginationCursor::decode checks its version; "
                   "compute_hash feeds kind, name and order of every sort field")
-    f = P.fn(DECODE)
+    f = P.inlined(DECODE)      # helpers of the same file (per-kind decoders, ensure_* checks) are spliced in
     if not ctx.anchor(rid, f, "decode_cursor"):
         return
     ctx.saw(f)
@@ -251,7 +251,8 @@ def r11b(ctx, P):
     ctx.rule(rid, "ORDER: in IndexReader::search decode_cursor receives a generation derived from the reader's own manifest; a cursor "
                   "position that was never seen (`saw_cursor` false) leads to an error return; next_cursor is encoded only on the branch "
                   "`hits.len() > limit`, from the key of element limit-1, with the same generation and sort plan")
-    f = P.fn(SEARCH)
+    # small private helpers of the file (page-boundary test, ...) are spliced in; the cursor decoder / encoder calls stay visible
+    f = P.inlined(SEARCH, depth=1, small=25, keep=(DECODE, "searchlite_core::api::reader::encode_cursor"))
     if not ctx.anchor(rid, f, "IndexReader::search"):
         return
     ctx.saw(f)
